@@ -150,8 +150,11 @@ func TestCommitteeDeterminism(t *testing.T) {
 		history := genHistory(t, sp)
 		evid.Count(fmt.Sprintf("determinism.history-len-%d", len(history)-1))
 		nTriples := rapid.IntRange(1, 4).Draw(t, "nTriples")
+		c := newCase(t, sp, history, drawSeed(t), drawRound(t), 0)
 		for i := 0; i < nTriples; i++ {
-			c := newCaseShared(t, sp, history, drawSeed(t), drawRound(t), nil)
+			if i > 0 {
+				c.setTarget(drawSeed(t), drawRound(t), uint64(i))
+			}
 			for _, step := range []uint8{rapid.SampledFrom(stepChoices).Draw(t, "step"), types.Final} {
 				cm := c.committeeFor(step)
 				if i == 0 {
@@ -163,10 +166,4 @@ func TestCommitteeDeterminism(t *testing.T) {
 			}
 		}
 	})
-}
-
-// newCaseShared is newCase; kept separate so that the determinism test reads
-// as what it is (no certificates involved).
-func newCaseShared(t tb, sp *spec, history []*spec, seed types.Seed, round uint64, _ interface{}) *caseCtx {
-	return newCase(t, sp, history, seed, round, 0)
 }
